@@ -263,13 +263,17 @@ def prop_C05(repo, tier):
         for f in r['findings']:
             if f['rule'] == 'VALIDATE-BEFORE-MUTATE':
                 res.add(as_rule(f), f['func'], f['construct'], False, '[message not schema-shaped] ' + f['detail'], f['file'], f['line'], f['witness'])
+    stale_cache(res, repo, merges=True)
     res.floors = {'VALIDATE-BEFORE-MUTATE': 40, 'MAY-ALIAS-REMOVE': 10}
     res.explanation = (
         'Static analysis: in the interprocedural path enumeration of every merge (callees inlined, loops iterated to a fix-point so '
         'that "the k-th lookup fails after k-1 elements were moved" is one abstract path), no exceptional exit - explicit raise, '
         'modelled implicit exception of a partial operation, or remove() of a possibly already detached node - is reachable once a '
-        'mutation of the running-order tree has happened. This is the whole property within the effect model of DESIGN §3.')
-    res.assumptions = ASSUME
+        'mutation of the running-order tree has happened. The rule is evaluated twice: for schema-shaped messages, and again '
+        'with nothing assumed about the message below its envelope (only messageID and the message element are taken as '
+        'present), because the property quantifies over every message that makes the merge raise. This is the whole property '
+        'within the effect model of DESIGN §3.')
+    res.assumptions = ASSUME + ['second pass: only the envelope of the message (messageID, message element) is assumed present']
     res.trusted_base = TRUSTED
     return res
 
@@ -353,6 +357,7 @@ def prop_C12(repo, tier):
                 res.add('CLASSIFY-TOTAL', f['func'], f['construct'], False, f['detail'], f['file'], f['line'], f['witness'])
     from . import rules_shape
     rules_shape.handler_covers(res, program(repo))
+    stale_cache(res, repo, merges=True)
     res.floors = {'NO-BUILTIN-ESCAPE': 20, 'CLASSIFY-TOTAL': 3}
     res.explanation = (
         'Static nullness / partial-operation analysis with exception flow. For each of the 24 merges entered through '
